@@ -459,9 +459,9 @@ def scope_programs_2(pid0):
     """More scope programs (C12 / C13).
     (a) a `let`-named branch whose first value is a block, while another branch's *first value* is the caller's variable of
         the same name: the branch name is not in scope in step 0.
-    (b) a block that reaches the macro as a `$e:expr` fragment is an ordinary operand (it is not "written as a block" at the
-        call site): it is evaluated in its place, with or without a `let` name on its branch (tickets show the order;
-        sequential macros only).
+    (b) a block that reaches the macro as a `$e:expr` fragment is still an operand written as a block: it is evaluated in
+        front of its step like one written in place, with or without a `let` name on its branch (tickets show the order;
+        sequential macros only). (Before fix 7bf5e8e of /repo such a block was evaluated in its place.)
     (c) the async try macros over `Option`s: `custom_joiner(::futures::join!) transpose_results(true)` with `map` /
         `and_then` handlers, success and failure."""
     out = []
@@ -489,7 +489,7 @@ def scope_programs_2(pid0):
             prelude = ("let __tk = ::std::cell::Cell::new(0u32); let tick = || { __tk.set(__tk.get() + 1); Some(__tk.get()) }; "
                        "macro_rules! __fb { ($e:expr) => { %s! { %stick() |> |v| v, %s$e |> |v| v, %s } } }" % (kind, nm[0], nm[1], h))
             rty = "Option<(u32, u32)>" if tr else "(Option<u32>, Option<u32>)"
-            exp = "Some((1, 2))" if tr else "(Some(1), Some(2))"
+            exp = "Some((2, 1))" if tr else "(Some(2), Some(1))"
             dsl = "/*via __fb!({ tick() })*/ %stick() |> |v| v, %s{ tick() } |> |v| v, %s" % (nm[0], nm[1], h)
             out.append((pid, kind, dsl, rty, exp, [(1, 2)], 4, "scope,scope:forwarded_block_%s,fwdblock" % ("named" if named else "unnamed"), "", False, prelude))
             pid += 1
